@@ -9,6 +9,8 @@ use serde_json::{json, Value as J};
 use std::collections::HashMap;
 
 pub const NAN_TOKEN: i64 = -99;
+pub const INF_TOKEN: i64 = 3;
+pub const INF_STAT: i64 = 1_000_000_000;
 const WEIRD: [u32; 11] = [
     0x8000_0000, // -0.0
     0x0000_0001, // smallest subnormal
@@ -68,11 +70,16 @@ impl Ctx {
     pub fn val_in(&self, t: i64) -> f32 {
         if self.vmap == "weird" {
             f32::from_bits(WEIRD[((t + self.voff).rem_euclid(WEIRD.len() as i64)) as usize])
+        } else if self.vmap == "intinf" && t == INF_TOKEN {
+            f32::INFINITY                       // one token stands for +infinity (a value the writers accept)
         } else {
             t as f32
         }
     }
     pub fn val_out(&mut self, v: f32) -> i64 {
+        if self.vmap == "intinf" && v == f32::INFINITY {
+            return INF_TOKEN;
+        }
         if v.is_nan() && self.vmap != "weird" {
             return NAN_TOKEN;
         }
@@ -102,6 +109,8 @@ impl Ctx {
         }
         if y.is_finite() && y.fract() == 0.0 && y.abs() < 2e9 {
             y as i64
+        } else if self.vmap == "intinf" && y == f64::INFINITY {
+            INF_STAT                            // statistics of a record that holds the infinite value
         } else {
             self.nonint = true;
             -77
